@@ -35,7 +35,7 @@ var props = map[string]propCfg{
 		Assumptions: commonAssumptions,
 	},
 	"C16": {
-		Require: []string{"processes_checked"},
+		Require: []string{"processes_checked", "runs_at_chosen_time_of_day", "runs_with_silent_input"},
 		BinRace: true, QuickBatches: 8, ThoroughBatches: 48, Parallel: 8, Bins: []string{"rtcmlogger"}, Level: "exploration", Floor: 30,
 		Rule:        "the real rtcmlogger binary, built from the current tree with the race detector and the hook overlay, run as a process in a fresh directory: inputs of 0, 1, 2, 100, 5000, 8095, 8096, 8097, 2*8096-1..+1, 3*8096+1, 40 kB, 100 kB (thorough: up to 2 MB) bytes, random / all-zero / text; stdin as a regular file, a pipe written in chunks of 100 / 1000 / 8096 / random size with 0-3 ms gaps, or a pipe closed immediately after one write; GOMAXPROCS in {1,2,16}; hook profiles: none (natural schedule), a 20 ms delay before the recorder's write call, 5 ms before the log write, 3 ms before the recorder's receive, frequent yields. Oracle: process stdout equals stdin byte for byte, and after exit the date-ordered concatenation of rtcmlogger.*.rtcm in the configured directory equals stdin. Non-trivial: non-empty input with a hook profile or piped stdin. Distinct by hash of the case.",
 		Assumptions: commonAssumptions,
@@ -71,7 +71,7 @@ var props = map[string]propCfg{
 		Assumptions: commonAssumptions,
 	},
 	"C09": {
-		Require: []string{"messages_received_by_consumers", "hook_events", "sources_processed"},
+		Require: []string{"messages_received_by_consumers", "hook_events", "sources_processed", "runs_with_empty_reads", "runs_with_silent_source"},
 		Race:    true, QuickBatches: 16, ThoroughBatches: 96, Parallel: 8, Level: "exploration", Floor: 40,
 		Rule:        "pipeline runs of the real file handler + fan-out (appcore.HandleMessagesUntilEOF) under the race detector: inputs are the captured batches and generated clean/hostile streams (200 B - 12 kB); the reader delivers chunks of 1..{1,2,7,64,500,5000} bytes with yield/sleep profiles; 1-4 consumer channels with capacities {0,1,4,64}, nil entries at any index and fast/yielding/slow(50us-2ms)/bursty consumers; GOMAXPROCS in {1,2,3,4,8,16}; check-time yield/sleep hooks before every channel operation of file_handler, handler, pushback and appcore (5 profiles). Oracle: every non-nil consumer's (type, raw bytes) sequence equals the same build's sequential framing of the same bytes; raw bytes do not change after delivery; the call returns 0; afterwards no goroutine with a frame in the four pipeline files remains (blocked in every sample for 200 ms = violation, still runnable = inconclusive); double close / send on closed channel / race report end the child. Non-trivial: >=2 real consumers, >=10 messages and a perturbation active. Distinct by hash of (input, reader, consumers, GOMAXPROCS, hook profile, seed).",
 		Assumptions: commonAssumptions,
@@ -83,7 +83,8 @@ var props = map[string]propCfg{
 		Assumptions: commonAssumptions,
 	},
 	"C17": {
-		Require:      []string{"times_compared"},
+		Require: []string{"times_compared", "display_processes_checked", "displayed_times_compared"},
+		BinRace: true, Bins: []string{"displayrtcm3"},
 		QuickBatches: 8, ThoroughBatches: 64, Parallel: 16, Level: "exploration", Floor: 100,
 		Rule:        "as C06, but the first observation of each constellation is drawn anywhere in the constellation week that contains the start time T: the first instant of the week, T itself, 1 ms / up to 3 s before T, the last millisecond of the week, or uniformly - followed by a C06-style continuation across rollovers. Non-trivial: some constellation's first observation is earlier than T. Distinct by hash of the history.",
 		Assumptions: commonAssumptions,
@@ -119,7 +120,7 @@ var props = map[string]propCfg{
 		Assumptions: commonAssumptions,
 	},
 	"C01": {
-		Require:      []string{"stream_typed_deliveries", "stream_rejected_d3_candidates", "direct_typed_no_error", "direct_rejected", "direct_reused_buffer_decodes"},
+		Require:      []string{"stream_typed_deliveries", "stream_rejected_d3_candidates", "direct_typed_no_error", "direct_rejected", "direct_reused_buffer_decodes", "direct_after_a_stream"},
 		QuickBatches: 8, ThoroughBatches: 64, Parallel: 16, Level: "exploration", Floor: 200,
 		Rule:        "hostile streams (valid frames of random type/length, stray 0xD3 runs, near-miss leaders, frames with one corrupted CRC byte / payload byte / forced 0xD3 / burst, length-field edits with and without CRC recomputation, truncated frames, NMEA/UBX/HTTP-like junk, random bytes dense in 0xD3) run through the stream handler, every typed delivery checked with an independent frame predicate (bitwise CRC-24Q); plus direct single-frame decoding of candidates (valid, valid+trailing bytes, crafted over-long inputs whose declared-length prefix has a bad CRC but whose whole has a good one, corrupted, truncated, zero-length, random). A stream is non-trivial when the gate took both outcomes (>=1 typed delivery and >=1 rejected 0xD3-led candidate); a direct call is non-trivial when the input is 0xD3-led and rejected, or typed with input longer than the frame. Distinct by hash of the input bytes.",
 		Assumptions: commonAssumptions,
